@@ -755,7 +755,14 @@ func (r *runner) run(dir string) scenResult {
 			atomic.AddInt32(&r.masterHits, 1)
 			mmux.ServeHTTP(w, q)
 		}))
-		defer msrv.Close()
+		defer func() {
+			done := make(chan struct{})
+			go func() { msrv.CloseClientConnections(); msrv.Close(); close(done) }()
+			select {
+			case <-done:
+			case <-time.After(2 * time.Second):
+			}
+		}()
 		sc.Mode = msrv.URL + "/api/update"
 	}
 	curBase.Store(r.base)
@@ -766,7 +773,14 @@ func (r *runner) run(dir string) scenResult {
 	r.api = r.st.GetInterface()
 	if sc.Frontends {
 		r.startFrontends(dir)
-		defer r.fe.srv.Close()
+		defer func() { // Close waits for requests in flight: with a wedged dispatcher they never finish
+			done := make(chan struct{})
+			go func() { r.fe.srv.CloseClientConnections(); r.fe.srv.Close(); close(done) }()
+			select {
+			case <-done:
+			case <-time.After(2 * time.Second):
+			}
+		}()
 	}
 	if sc.Gated && gt.waitParked(watchdog, "disp.idle") == "" {
 		panic("dispatcher did not reach the idle gate")
